@@ -16,7 +16,7 @@ def settle (x : State × List String) : List (State × List String) :=
   let succ := Juniper.Gen.Pipe.chanNextArms.filterMap fun a =>
     match step x.1 (.arm a) with
     | none => none
-    | some st' => some (st', x.2 ++ (match completion x.1 (.arm a) with | some r => ["n=" ++ r] | none => []))
+    | some st' => some (st', x.2 ++ (match completion x.1 (.arm a) with | some r => ["n=" ++ r.token] | none => []))
   if succ.isEmpty then [x] else succ
 
 def parseAction : List String → Option Label
@@ -41,7 +41,7 @@ def step' (s : St) (toks : List String) : St × String :=
       let applied := s.set.filterMap fun st =>
         match step st l with
         | none => none
-        | some st' => some (st', (match completion st l with | some r => ["n=" ++ r] | none => []))
+        | some st' => some (st', (match completion st l with | some r => ["n=" ++ r.token] | none => []))
       if applied.isEmpty then (s, "bad-action not-enabled") else
       let q := applied.flatMap settle
       let ok := dedup ((q.filter (fun x => x.2 == obs)).map (·.1))
